@@ -140,6 +140,18 @@ def emit_loop_control(tree):
   if not (isinstance(m, ast.Assign) and _is_name(m.targets[0], 'metrics') and isinstance(m.value, ast.Call) and
           _is_name(m.value.func, 'eval_fn') and [dotted(a) for a in m.value.args] == ['state', 'round_num']):
     raise Unsupported('metrics = eval_fn(state, round_num) expected in the final evaluation')
+  # metrics_path = os.path.join(config.root_dir, f'{eval_name}<suffix>')
+  mp = [n for n in ast.walk(fin[0]) if isinstance(n, ast.Assign) and _is_name(n.targets[0], 'metrics_path')]
+  if not (len(mp) == 1 and isinstance(mp[0].value, ast.Call) and dotted(mp[0].value.func) == 'os.path.join' and
+          len(mp[0].value.args) == 2 and dotted(mp[0].value.args[0]) == 'config.root_dir' and
+          isinstance(mp[0].value.args[1], ast.JoinedStr)):
+    raise Unsupported("metrics_path = os.path.join(config.root_dir, f'{eval_name}...') expected")
+  js = mp[0].value.args[1].values
+  if not (len(js) == 2 and isinstance(js[0], ast.FormattedValue) and _is_name(js[0].value, 'eval_name') and
+          js[0].format_spec is None and js[0].conversion == -1 and isinstance(js[1], ast.Constant) and
+          isinstance(js[1].value, str)):
+    raise Unsupported("f'{eval_name}<literal>' expected")
+  tsv_suffix = '[' + '; '.join(str(b) for b in js[1].value.encode()) + ']'
   wr = [n for n in ast.walk(fin[0]) if isinstance(n, ast.With)]
   if not (len(wr) == 1 and isinstance(wr[0].items[0].context_expr, ast.Call) and
           dotted(wr[0].items[0].context_expr.func) == 'tf.io.gfile.GFile' and
@@ -157,6 +169,8 @@ def emit_loop_control(tree):
       f'  {save}.',
       'Definition should_run_eval (eval_frequency round_num start_round_num : Z) : bool :=',
       f'  {ev}.',
+      '(* name (relative to root_dir) of the file a final evaluation writes *)',
+      f'Definition metrics_file_name (eval_name : list Z) : list Z := eval_name ++ {tsv_suffix}.',
   ])
 
 
